@@ -58,23 +58,33 @@ type workerOut struct {
 	Samples    []any              `json:"samples"`
 	Runs       int                `json:"runs"`
 	Digest     string             `json:"digest"`
+	RunDigests []string           `json:"run_digests"`
 }
 
 func runWorker(spec *props.Spec, tier string, seed uint64, offset, stride, runs int) *workerOut {
 	cov := props.NewCov()
 	out := &workerOut{Cov: cov}
 	var dig bytes.Buffer
+	limit := -1
+	if s := os.Getenv("VERIF_SELFTEST_LIMIT"); s != "" {
+		limit, _ = strconv.Atoi(s)
+	}
 	for i := offset; i < runs; i += stride {
+		if limit >= 0 && out.Runs >= limit {
+			break
+		}
 		r := core.NewRng(core.Mix(seed, spec.ID, uint64(i)))
 		vs := spec.Run(r, uint64(i), seed, tier, cov)
 		out.Runs++
-		fmt.Fprintf(&dig, "%d:%d:%d:%d:%s;", i, r.Draws, cov.Evaluations, cov.Steps, cov.Digest)
+		one := fmt.Sprintf("%d:%d:%d:%d:%s;", i, r.Draws, cov.Evaluations, cov.Steps, cov.Digest)
 		for _, v := range vs {
-			fmt.Fprintf(&dig, "V%s;", v.Clause)
+			one += "V" + v.Clause + ";"
 			if len(out.Violations) < 40 {
 				out.Violations = append(out.Violations, v)
 			}
 		}
+		dig.WriteString(one)
+		out.RunDigests = append(out.RunDigests, core.Hash([]byte(one))[:12])
 	}
 	out.Distinct = props.SortedKeys(cov.Distinct)
 	out.Inputs = props.SortedKeys(cov.Inputs)
@@ -306,6 +316,40 @@ func orchestrate(prop, tier string) int {
 	}
 
 	extra := map[string]any{}
+	// determinism self-test of the simulator: the first runs of worker 0 again,
+	// in fresh processes under other GOMAXPROCS; the per-run digests (PRNG
+	// draws, events, result hashes, clauses) must be identical.
+	{
+		k := 6
+		if tier == "thorough" {
+			k = 150
+		}
+		if k > len(outs[0].RunDigests) {
+			k = len(outs[0].RunDigests)
+		}
+		for _, procs := range []string{"1", "7"} {
+			cmd := exec.Command(self, "worker", prop, tier, fmt.Sprint(seed), "0", fmt.Sprint(workers), fmt.Sprint(runs))
+			cmd.Env = append(os.Environ(), "GOMAXPROCS="+procs, fmt.Sprintf("VERIF_SELFTEST_LIMIT=%d", k))
+			var so, se bytes.Buffer
+			cmd.Stdout, cmd.Stderr = &so, &se
+			if err := cmd.Run(); err != nil {
+				fmt.Fprintf(os.Stderr, "INFRASTRUCTURE: self-test worker: %v: %s\n", err, tail(se.String(), 1500))
+				return 2
+			}
+			var o workerOut
+			if err := json.Unmarshal(so.Bytes(), &o); err != nil {
+				fmt.Fprintf(os.Stderr, "INFRASTRUCTURE: self-test worker output: %v\n", err)
+				return 2
+			}
+			for i := 0; i < k; i++ {
+				if i >= len(o.RunDigests) || o.RunDigests[i] != outs[0].RunDigests[i] {
+					fmt.Fprintf(os.Stderr, "INFRASTRUCTURE: simulator nondeterminism: run #%d of worker 0 gives a different event digest when repeated in a fresh process with GOMAXPROCS=%s\n", i, procs)
+					return 2
+				}
+			}
+		}
+		extra["determinism_selftest"] = fmt.Sprintf("%d runs re-executed in 2 fresh processes (GOMAXPROCS 1 and 7): per-run digests of PRNG draws, events, result hashes and clauses identical", k)
+	}
 	posts := spec.Posts
 	if spec.Post != nil {
 		posts = append([]func(uint64, string, *props.Cov) ([]*props.Violation, map[string]any, error){spec.Post}, posts...)
